@@ -12,29 +12,32 @@ PROP = {'drive': ['Subset'], 'modules': ['SfntV.Props.C10'],
                        'C10_layout_gsub_indices',
                        'C10_closure_rules',
                        'C10_closure_total',
+                       'C10_panic_iff',
+                       'C10_total_ok',
                        'C10_any_order',
                        'C10_layout_gsub',
                        'C10_writable_glyphs',
                        'C10_writable_coverage',
                        'C10_writable_encoding',
                        'C10_writable_encoding_witness',
+                       'C10_writable',
+                       'C10_writable_gsub12_roundtrip',
+                       'C10_writable_nonvacuous',
                        'C10_nonvacuous'],
  'areas': [('subset', 400, 6000)],
  'rule': 'distinct case lines (abstract font; CFF built-in encodings may give several codes to one glyph;  kind ttf/cff/cid, composite graph, widths, names, cmap subtables, '
          'private dicts/FDSelect/encoding/CIDs, GSUB 1.1/4.1, GPOS 2.1, features; requested glyph list; for '
          'subset.run the glyph order Go produced as oracle); non-trivial = at least 2 requested glyphs',
- 'partial': ['C10_writable is proved only as writer PRECONDITIONS on the model (C10_writable_glyphs, '
-             'C10_writable_coverage: coverage indices handed out by sortedByNewGid increase strictly with the new '
-             'glyph id; C10_writable_encoding: CFF encoding contiguous when retained encoded glyphs come first; '
-             'cmap keys unchanged by C10_cmap); the writer itself is not modelled here (see C01). Tie: V stream '
-             'subset.writable (Write+Read of the real subset vs. "ok unless encoding non-contiguous") and the V '
-             'stream subset.run, whose Go side lists rebuilt GSUB entries in coverage-index order while the model '
-             'lists them by glyph id. Outside the hypothesis of C10_writable_encoding the code fails: known finding '
-             'C10-cff-encoding-order (DESIGN #38), Lean witness C10_writable_encoding_witness',
-             'C10_closure_total shows that legal pop sequences exist for every choice of rule orders, the step-2 '
-             'budget suffices and the outer loop stops (the model never answers err:order for a suitable oracle); '
-             'that the outcome is .ok rather than .panic exactly when all reachable glyph ids are in range is '
-             'checked by correspondence (malformed stream), not proved'],
+ 'partial': ['C10_writable places every table Subset REBUILDS (GSUB 1.2/4.1, GPOS 2.1, cmap subtables, CFF built-in '
+             'encoding) in the domain of the codec theorems of C08 / C09b / C13 (WritableByCodecs), under Dom and - '
+             'for simple CFF fonts with an encoding - EncodedFirst; it is not a model of sfnt.Write: tables copied '
+             'verbatim (ScriptList, feature lists, lookup flags, value records, outlines/charstrings, private dicts, '
+             'glyph names/SIDs, hinting, maxp/head/OS2/name/post) are in their codec domains iff the original\'s are, '
+             'and the assembly into a file is C01/C03. A rebuilt GSUB/GPOS subtable whose size exceeds the 16-bit '
+             'offsets (e.g. a 1.1 coverage of more than 32764 retained glyphs rebuilt as 1.2) is refused by the '
+             'encoder with the panic that exists in the code (C08 refusal theorems) - not excluded by Dom. Outside '
+             'EncodedFirst the CFF encoding cannot be written: known finding C10-cff-encoding-order (DESIGN #38), '
+             'Lean witness C10_writable_encoding_witness. Tie: V stream subset.writable, D stream subset.encrt'],
  'modelled_not_verified': ['cff.Outlines.Subset (cff/subset.go) is driven separately (V stream subset.cffrun) against the same '
                            'SubsetCFF model with cmap and layout tables removed',
                            'coverage-index assignment of the rebuilt GSUB subtables (index = rank of the new glyph '
@@ -42,10 +45,10 @@ PROP = {'drive': ['Subset'], 'modules': ['SfntV.Props.C10'],
                            'lists; validity of the tables is exercised by subset.writable',
                            'cmap Encode/Get round trip, Clone, LookupMetaInfo and ScriptList are copied verbatim and '
                            'not modelled; glyph.ID is uint16: fonts with < 65536 glyphs'],
- 'assumptions': ['Model of subset.go WITH patches/C10/02 (joint closure of GSUB outputs and composite components, '
-                 'applied uncommitted in /repo). Dom: glyph list duplicate-free (theorems need only that; "starts with 0" is not used), all glyph '
-                 'ids and component ids < number of glyphs (otherwise the code panics; the model says panic and '
-                 'the harness checks it), Widths/Names/FDSelect/GIDToCID cover all glyphs, FDSelect < number of '
+ 'assumptions': ['Model of subset.go at /repo HEAD (all C10 repairs, including the joint closure of GSUB outputs and '
+                 'composite components, are committed). Dom: glyph list duplicate-free (theorems need only that; "starts with 0" is not used), all glyph '
+                 'ids REACHABLE from the list (GSUB rules, components) < number of glyphs (otherwise the code panics: '
+                 'theorem C10_panic_iff, also checked by the malformed stream), Widths/Names/FDSelect/GIDToCID cover all glyphs, FDSelect < number of '
                  'private dicts, only GSUB 1.1/4.1 and GPOS 2.1 subtables, no GDEF; cmap subtables in the decoded (Unicode) view '
                  'cmap.Table.Get gives, Macintosh-platform subtables included (after repair patches/C10/01)',
                  'o.rules k is a permutation of the rule list in round k of the outer loop (Go ranges over coverage '
